@@ -500,7 +500,7 @@ Definition spec_term_b (o : observation) : bool := o_wait o && o_settled o.
 Definition spec_guns_b (o : observation) : bool := o_created o =? o_closed o.
 
 (* The variant the correspondence run and the theorems are about: the tree as it is now. *)
-Definition current : variant := orig.
+Definition current : variant := fixed.
 
 Definition total_created (g : gstate) : nat := sum_by created (pools g).
 Definition total_closed (g : gstate) : nat := sum_by closed (pools g).
